@@ -354,7 +354,10 @@ class Driver:
         p = subprocess.run([self.exe], input=data.encode("utf8"), capture_output=True)
         if p.returncode != 0:
             raise InfraError("driver exited with %d: %s" % (p.returncode, p.stderr.decode("utf8", "replace")[-500:]))
-        lines = p.stdout.decode("utf8").splitlines()
+        # one answer per "\n" (not str.splitlines, which also breaks at U+2028, U+0085, \x0b, \x0c … inside an answer)
+        lines = p.stdout.decode("utf8").split("\n")
+        if lines and lines[-1] == "":
+            lines.pop()
         if len(lines) != len(requests):
             raise InfraError("driver answered %d lines for %d requests" % (len(lines), len(requests)))
         return [json.loads(l) for l in lines]
